@@ -28,6 +28,7 @@ import (
 	"os"
 	"os/exec"
 	"path/filepath"
+	"runtime/debug"
 	"sort"
 	"strconv"
 	"strings"
@@ -1326,6 +1327,9 @@ func childMain() {
 		fmt.Fprintln(os.Stderr, "child: cannot open result file:", err)
 		os.Exit(4)
 	}
+	if ms, _ := strconv.Atoi(os.Getenv("VERIF_C14_MAXSTACK")); ms > 0 {
+		debug.SetMaxStack(ms) // reduced limit: a runaway recursion dies after touching little memory
+	}
 	skip := map[string]bool{}
 	if b, err := os.ReadFile(os.Getenv("VERIF_C14_SKIP")); err == nil {
 		for _, l := range strings.Split(string(b), "\n") {
@@ -1345,6 +1349,9 @@ func childMain() {
 		if ci != lastCase {
 			c = genCyc(cycRNG(ci), ci)
 			lastCase = ci
+		}
+		if skip["#"+strconv.Itoa(item)] {
+			continue // probe item: already run in a process of its own
 		}
 		if skip[c.key(op)] {
 			emit(itemResult{Item: item, Out: "skipped"})
@@ -1423,7 +1430,7 @@ type childDeath struct {
 
 // runRange drives children over items [from,to): when a child dies the item it was running
 // is recorded and a new child continues after it.
-func runRange(scratch string, from, to int, skipFile string, stall time.Duration, maxDeaths int) (results []itemResult, deaths []childDeath, notRun int) {
+func runRange(scratch string, from, to int, skipFile string, maxStack int, stall time.Duration, maxDeaths int) (results []itemResult, deaths []childDeath, notRun int) {
 	attempt := 0
 	for from < to {
 		attempt++
@@ -1433,7 +1440,10 @@ func runRange(scratch string, from, to int, skipFile string, stall time.Duration
 		errf := filepath.Join(scratch, "err-"+tag)
 		ef, _ := os.Create(errf)
 		cmd := exec.Command(os.Args[0])
-		cmd.Env = append(os.Environ(), "VERIF_C14_CHILD=1", "GOTRACEBACK=none",
+		// gcshrinkstackoff: a deep but finite recursion (Serialize stopped by its size check needs
+		// hundreds of MB of stack) pays for the stack pages once per child, not once per item
+		cmd.Env = append(os.Environ(), "VERIF_C14_CHILD=1", "GOTRACEBACK=none", "GODEBUG=gcshrinkstackoff=1",
+			"VERIF_C14_MAXSTACK="+strconv.Itoa(maxStack),
 			"VERIF_C14_FROM="+strconv.Itoa(from), "VERIF_C14_TO="+strconv.Itoa(to),
 			"VERIF_C14_CUR="+cur, "VERIF_C14_RES="+res, "VERIF_C14_SKIP="+skipFile)
 		cmd.Stdout = ef
@@ -1517,6 +1527,8 @@ func runRange(scratch string, from, to int, skipFile string, stall time.Duration
 	return
 }
 
+const reducedStack = 8 << 20 // child stack limit of the probe stage
+
 func runCyclic(r *vf.Run, scratch string) {
 	ncases := vf.N(400, 8000)
 	cases := make([]cycCase, ncases)
@@ -1524,11 +1536,24 @@ func runCyclic(r *vf.Run, scratch string) {
 		cases[i] = genCyc(cycRNG(i), i)
 	}
 	nitems := ncases * nOps
-	stall := 90 * time.Second
+	stall := 300 * time.Second
+	var mu sync.Mutex
+	var allResults []itemResult
+	var allDeaths []childDeath
+	deathNote := map[int]string{} // item -> how the death was observed
+	emptySkip := filepath.Join(scratch, "skip-none")
+	os.WriteFile(emptySkip, nil, 0o644)
 
-	// -- probe phase: the first case of every (closing kind, class) runs each operation in a
-	// process of its own.  Keys whose probe dies are reported once and their remaining items
-	// are skipped in the bulk phase (each death costs seconds: a 1 GB stack has to fill up).
+	// A death by stack overflow at Go's default 1 GB limit means filling 1 GB of stack, which
+	// costs seconds to a minute per item.  The cyclic items therefore run in stages:
+	//  A. probes: the first case of every (closing kind, class), each operation in a process
+	//     of its own under a reduced 8 MB stack limit (debug.SetMaxStack): cheap deaths;
+	//  B. confirmation at the DEFAULT limit, one process each: quick tier the first overflowed
+	//     probe of every operation, thorough tier every overflowed probe.  A confirmed death
+	//     is the verdict "fatal"; an item that finishes here was only deep (Serialize is
+	//     stopped by its size check after ~260k nested calls) and is judged by its result;
+	//  C. bulk: all remaining items at the default limit in long-lived children; items whose
+	//     key already died in A/B are skipped (same structural key, already reported).
 	probeOf := map[string]int{}
 	var probeItems []int
 	isProbe := map[int]bool{}
@@ -1542,19 +1567,79 @@ func runCyclic(r *vf.Run, scratch string) {
 			}
 		}
 	}
-	var mu sync.Mutex
-	var allResults []itemResult
-	var allDeaths []childDeath
-	emptySkip := filepath.Join(scratch, "skip-none")
-	os.WriteFile(emptySkip, nil, 0o644)
-	vf.Parallel(len(probeItems), 4, func(i int) {
+	var overflowedA []int
+	vf.Parallel(len(probeItems), 6, func(i int) {
 		it := probeItems[i]
-		res, deaths, _ := runRange(scratch, it, it+1, emptySkip, stall, 1)
+		res, deaths, _ := runRange(scratch, it, it+1, emptySkip, reducedStack, stall, 1)
 		mu.Lock()
 		allResults = append(allResults, res...)
-		allDeaths = append(allDeaths, deaths...)
+		for _, d := range deaths {
+			if d.item >= 0 && d.class == "stack-overflow" {
+				overflowedA = append(overflowedA, d.item) // ambiguous: runaway or merely deep
+			} else {
+				allDeaths = append(allDeaths, d)
+				if d.item >= 0 {
+					deathNote[d.item] = "reduced 8 MB stack limit"
+				}
+			}
+		}
 		mu.Unlock()
 	})
+	sort.Ints(overflowedA)
+	r.Add("cyclic_probe_items", int64(len(probeItems)))
+	r.Add("cyclic_probe_overflowed_reduced_stack", int64(len(overflowedA)))
+
+	// B. confirmation at the default stack limit
+	var confirm, unconfirmed []int
+	seenOp := map[int]bool{}
+	for _, it := range overflowedA {
+		if vf.Thorough() || !seenOp[it%nOps] {
+			seenOp[it%nOps] = true
+			confirm = append(confirm, it)
+		} else {
+			unconfirmed = append(unconfirmed, it)
+		}
+	}
+	dyingOp := map[int]int{}  // operation -> item confirmed to die at the default limit
+	finiteOp := map[int]int{} // operation -> item confirmed to finish at the default limit
+	runFull := func(items []int) {
+		vf.Parallel(len(items), 5, func(i int) {
+			it := items[i]
+			res, deaths, _ := runRange(scratch, it, it+1, emptySkip, 0, stall, 1)
+			mu.Lock()
+			allResults = append(allResults, res...)
+			for _, d := range deaths {
+				allDeaths = append(allDeaths, d)
+				if d.item >= 0 {
+					deathNote[d.item] = "Go default stack limit (1 GB)"
+					if _, ok := dyingOp[it%nOps]; !ok && d.class == "stack-overflow" {
+						dyingOp[it%nOps] = it
+					}
+				}
+			}
+			if len(deaths) == 0 {
+				if _, ok := finiteOp[it%nOps]; !ok {
+					finiteOp[it%nOps] = it
+				}
+				r.Count("cyclic_deep_but_finite_at_default_stack")
+			}
+			mu.Unlock()
+		})
+	}
+	runFull(confirm)
+	var again []int
+	for _, it := range unconfirmed {
+		if rep, ok := dyingOp[it%nOps]; ok {
+			if _, fin := finiteOp[it%nOps]; !fin {
+				allDeaths = append(allDeaths, childDeath{item: it, class: "stack-overflow"})
+				deathNote[it] = fmt.Sprintf("reduced 8 MB stack limit; %s confirmed fatal at Go's default 1 GB limit on case %d", opName[it%nOps], rep/nOps)
+				continue
+			}
+		}
+		again = append(again, it) // the operation's representative finished: decide each item at the default limit
+	}
+	runFull(again)
+
 	skipKeys := map[string]bool{}
 	for _, d := range allDeaths {
 		if d.item >= 0 {
@@ -1566,53 +1651,39 @@ func runCyclic(r *vf.Run, scratch string) {
 		sk = append(sk, k)
 	}
 	sort.Strings(sk)
+	r.Extra("cyclic_keys_skipped_in_bulk_after_probe_death", sk)
+	for it := range isProbe {
+		sk = append(sk, "#"+strconv.Itoa(it))
+	}
 	skipFile := filepath.Join(scratch, "skip-keys")
 	os.WriteFile(skipFile, []byte(strings.Join(sk, "\n")), 0o644)
-	r.Extra("cyclic_keys_skipped_after_probe_death", sk)
 
-	// -- bulk phase: contiguous item ranges, probes excluded by splitting around them
-	type span struct{ from, to int }
-	var spans []span
-	const per = 250
-	start := 0
-	flush := func(end int) {
-		for s := start; s < end; s += per {
-			e := s + per
-			if e > end {
-				e = end
-			}
-			spans = append(spans, span{s, e})
-		}
-	}
-	for it := 0; it < nitems; it++ {
-		if isProbe[it] {
-			flush(it)
-			start = it + 1
-		}
-	}
-	flush(nitems)
+	// C. bulk
+	const workers = 4
+	per := (nitems + workers - 1) / workers
 	notRunTotal := 0
-	bulkDeaths := 0
-	vf.Parallel(len(spans), 4, func(i int) {
-		mu.Lock()
-		tooMany := bulkDeaths >= 24
-		mu.Unlock()
-		if tooMany {
-			mu.Lock()
-			notRunTotal += spans[i].to - spans[i].from
-			mu.Unlock()
+	vf.Parallel(workers, workers, func(w int) {
+		from, to := w*per, (w+1)*per
+		if to > nitems {
+			to = nitems
+		}
+		if from >= to {
 			return
 		}
-		res, deaths, notRun := runRange(scratch, spans[i].from, spans[i].to, skipFile, stall, 6)
+		res, deaths, notRun := runRange(scratch, from, to, skipFile, 0, stall, 3)
 		mu.Lock()
 		allResults = append(allResults, res...)
-		allDeaths = append(allDeaths, deaths...)
-		bulkDeaths += len(deaths)
+		for _, d := range deaths {
+			allDeaths = append(allDeaths, d)
+			if d.item >= 0 {
+				deathNote[d.item] = "Go default stack limit (1 GB)"
+			}
+		}
 		notRunTotal += notRun
 		mu.Unlock()
 	})
 	if notRunTotal > 0 {
-		r.Add("cyclic_items_not_run_after_many_deaths", int64(notRunTotal))
+		r.Add("cyclic_items_not_run_after_repeated_deaths", int64(notRunTotal))
 	}
 
 	// -- judge
@@ -1643,7 +1714,7 @@ func runCyclic(r *vf.Run, scratch string) {
 		r.Count("cyclic_child_death")
 		r.Count("cyclic_" + opName[op])
 		violation(r, "cycle-crash:"+c.key(op), fmt.Sprintf("%s on a cyclic value killed the process: %s", opName[op], d.class),
-			wit(d.item, map[string]interface{}{"process_death": d.class, "stderr": d.tail}))
+			wit(d.item, map[string]interface{}{"process_death": d.class, "observed_under": deathNote[d.item], "stderr": d.tail}))
 	}
 	for _, ir := range allResults {
 		c := cases[ir.Item/nOps]
